@@ -4,14 +4,20 @@
     Objects.  [piece] / [table] / [dtd_doc] (Spec/AttrNorm.v): attribute value literals as lists of
     text, character references and entity references; the internal general entities and the
     attribute-list declarations of the DTD in document order.  [spec_*] is the transcription of
-    XML 1.0 3.3, 3.3.2, 3.3.3, 4.5, 4.6; [model_*] (Model/AttrModel.v) is xml-info / xml-dom after the
-    fixes D37, D38, D54, D55 (branch agent-nsattr), tied to the crates by the [attr] correspondence.
+    XML 1.0 3.3, 3.3.2, 3.3.3, 4.1, 4.5, 4.6; [model_*] (Model/AttrModel.v) is xml-info / xml-dom on branch
+    agent-nsattr2 (main + the fixes D37, D38, D54, D55), tied to the crates by the [attr] correspondence.
+    Hypotheses: [wf_table] = every reference of an entity literal is declared, no reference cycle, no
+    '&' / '<' (literal or as character reference) in entity literals; [doc_wf] = the entities are
+    declared before the attribute-list declarations, the table is [wf_table], every literal refers to
+    declared entities -- i.e. the document is well-formed.  Ill-formed documents are refused by the
+    model and the specification alike ([cycle_refused] in Proofs/AttrExamples.v is an instance); that the
+    two refusals coincide on every ill-formed document is checked by the correspondence, not proved.
 
     Findings that stay:
       D36  [#REQUIRED] attributes that are not written are materialised with an empty value
            (pinned by info::tests::test_attribute_specified_required)  -> [Known36]
       D56  an entity literal with [&#38;] (double escaping, e.g. the recommended declaration of lt) is
-           not re-scanned; with [&#60;] the '<' is not refused (D06, property C02)  -> [KnownEsc] *)
+           not re-scanned  -> [KnownEsc] *)
 From Coq Require Import List NArith Bool.
 From XmlRs Require Import Base.CPred Spec.AttrNorm Model.AttrModel
   Proofs.AttrTokenProofs Proofs.AttrNormProofs Proofs.AttrSetProofs Proofs.AttrExamples.
@@ -23,9 +29,10 @@ Theorem normalized_value_refines : forall dtd ty lit,
   wf_table dtd -> model_value dtd ty lit = spec_value dtd ty lit.
 Proof. exact normalized_value_refines_proof. Qed.
 
-(** ... at every amount of fuel, cyclic or not, as soon as no entity literal contains [&#38;] / [&#60;] *)
+(** ... at every amount of fuel, whether or not all references are declared, as soon as no entity literal
+    contains [&#38;] / [&#60;] and there is no reference cycle *)
 Theorem normalized_value_refines_known : forall dtd fuel ty lit,
-  KnownEsc dtd = false -> model_value_f fuel dtd ty lit = spec_value_f fuel dtd ty lit.
+  KnownEsc dtd = false -> acyclic dtd -> model_value_f fuel dtd ty lit = spec_value_f fuel dtd ty lit.
 Proof. exact normalized_value_refines_known_proof. Qed.
 
 (** the fuel of the specification is enough, so [Recursion] is only answered on a reference cycle *)
@@ -53,16 +60,16 @@ Proof.
 Qed.
 
 (** *** attribute set.  Full-strength statement (REFUTED by the model, finding D36):
-      forall d el written, simple_table (entities_of d) -> no_ns_defs d el ->
+      forall d el written, doc_wf d written -> no_ns_defs d el ->
         model_attrs d el written = map_ares (map of_item) (spec_attrs d el written)
     What holds: the same outside [Known36]. *)
 Theorem attribute_set_refines : forall d el written,
-  simple_table (entities_of d) -> no_ns_defs d el -> Known36 d el written = false ->
+  doc_wf d written -> no_ns_defs d el -> Known36 d el written = false ->
   model_attrs d el written = map_ares (map of_item) (spec_attrs d el written).
 Proof. exact attribute_set_refines_proof. Qed.
 
 Theorem attribute_set_refuted :
-  exists d el written, simple_table (entities_of d) /\ no_ns_defs d el /\ Known36 d el written = true /\
+  exists d el written, doc_wf d written /\ no_ns_defs d el /\ Known36 d el written = true /\
     model_attrs d el written <> map_ares (map of_item) (spec_attrs d el written).
 Proof. exact attribute_set_refuted_proof. Qed.
 
